@@ -306,6 +306,61 @@ def wv : P String := do
   let vd := vd.diffIf (!sameTried) s!"Witness::addVariations tried model={st.tried.length} impl={tried.length}"
   return vd.render
 
+/-- decisions of one LinearSupport timestep along the model's own trajectory (mirrors `lsScan` / `lsLoop`) -/
+def condLsScan (m : Pomdp) (prev : VList) (rtOf : List Rat → Bool) : List (List Rat) → LSState → Cond → Cond
+  | [], _, c => c
+  | v :: rest, st, c =>
+    if st.tried.contains v then condLsScan m prev rtOf rest st c else
+    let b := bfunL v
+    let rt := rtOf v
+    let c := condAll m prev c rt b
+    let diff := dot m.S b (val (backupAt m prev b)) - (bestAtPoint m.S b st.good).2
+    -- `diff > 0 && checkDifferentGeneral(diff, 0)`: the effective threshold is the small tolerance
+    let c := (c.note rt diff 0).note rt (absQ diff) Gen.equalToleranceSmall
+    condLsScan m prev rtOf rest (lsScan m prev 0 [v] st) c
+
+def condLsLoop (m : Pomdp) (prev : VList) (rtOf : List Rat → Bool) (verts2 : VEntry → VList → List (List Rat)) :
+    Nat → List (List Rat) → LSState → Cond → Cond
+  | 0, _, _, c => c
+  | f+1, vs, st, c =>
+    let c := condLsScan m prev rtOf vs st c
+    let st1 := lsScan m prev 0 vs st
+    match lsPopMax st1.agenda with
+    | none => c
+    | some (best, rest) =>
+      let c := rest.foldl (fun c it => (c.note false best.err it.err).note (rtOf it.belief) it.cur
+                  (dot m.S (bfunL it.belief) (val best.support))) c
+      let rest' := rest.filter (fun it => !(decide (it.cur < dot m.S (bfunL it.belief) (val best.support))))
+      condLsLoop m prev rtOf verts2 f (verts2 best.support st1.good) { st1 with agenda := rest', good := st1.good ++ [best.support] } c
+
+/-- `ls pomdp prev | level | walked tie lists` : one LinearSupport timestep against `lsStep`, the vertex lists being the
+    oracle answers logged by the harness -/
+def ls : P String := do
+  let m ← pomdpP; let prev ← vlistP; P.bar
+  let level ← vlistP; P.bar
+  let walked ← P.bool; let tie ← P.bool
+  let lists ← P.list (P.list P.qs); P.eof
+  let vd : Verdict := { tag := "ls" }
+  -- property clauses on the implementation's own level
+  let vd := match firstBad m 1 prev [level] with
+    | some (_, what, dev) => vd.failIf true s!"LinearSupport {what} dev={qstr dev}"
+    | none => vd
+  let st0 := lsCorners m prev (List.range m.S) ⟨[], [], [], []⟩
+  let n0 := st0.good.length
+  let verts1 := fun (_ : VList) => lists.getD 0 []
+  let verts2 := fun (_ : VEntry) (good : VList) => lists.getD (good.length - n0 + 1) []
+  let fuel := lists.length + 2
+  let mlevel := lsStep m 0 verts1 verts2 lsPopMax fuel prev
+  let exact := levelB eqQ m prev level
+  let rtOf := fun (bl : List Rat) => exact && dyadicList bl
+  let c0 : Cond := (List.range m.S).foldl (fun c s => condAll m prev c exact (fun i => if i = s then 1 else 0)) {}
+  let cond := condLsLoop m prev rtOf verts2 fuel (verts1 []) st0 c0
+  if !vd.fails.isEmpty then return vd.render
+  if sameVList mlevel level then return ({ vd with tag := if walked then "ls" else "ls unwalked" }).render
+  if !walked || tie then return "skip replay_diverged ls"
+  if illConditioned cond then return s!"skip ill_conditioned ls minMargin={qstr cond.minM} ties={cond.ties}"
+  return (vd.diffIf true s!"LinearSupport model_differs sizes model={mlevel.length} impl={level.length} minMargin={qstr cond.minM}").render
+
 /-- `pbvi pomdp nB beliefs h | vf` : the whole PBVI run against `pbviRun` -/
 def pbvi : P String := do
   let m ← pomdpP; let bs ← P.list P.qs; let _h ← P.nat; P.bar
@@ -327,6 +382,7 @@ def handle (toks : List String) : String :=
     | "pbvi" :: rest => P.run pbvi rest
     | "wv" :: rest => P.run wv rest
     | "perseus" :: rest => P.run perseus rest
+    | "ls" :: rest => P.run ls rest
     | _ => none
   r.getD "bad-op"
 
